@@ -54,6 +54,8 @@ enum PerEnds {
     /// lane k of the last row differs from the first row: by 1.0 / by one ulp / by 2^-20 relative
     UnequalLane(usize, u8),
     NanEnds,
+    /// first and last rows equal and infinite (+inf in the even lanes, -inf in the odd ones): valid
+    InfEnds,
 }
 #[derive(Clone, Copy, Debug, PartialEq)]
 enum BShape {
@@ -112,7 +114,7 @@ fn expected_1d(c: &Case1) -> BTreeSet<&'static str> {
             v.insert("ShapeError");
         }
         // with zero lanes the first and last rows are (vacuously) equal
-        Strat::CubicPeriodic(p) if *p != PerEnds::Equal && c.shape[1..].iter().product::<usize>() > 0 => {
+        Strat::CubicPeriodic(p) if !matches!(p, PerEnds::Equal | PerEnds::InfEnds) && c.shape[1..].iter().product::<usize>() > 0 => {
             v.insert("ValueError");
         }
         _ => {}
@@ -151,6 +153,13 @@ fn data_for(c: &Case1) -> ArrayD<f64> {
                 PerEnds::NanEnds => {
                     d.index_axis_mut(ndarray::Axis(0), n - 1).fill(f64::NAN);
                     d.index_axis_mut(ndarray::Axis(0), 0).fill(f64::NAN);
+                }
+                PerEnds::InfEnds => {
+                    for row in [0, n - 1] {
+                        for (k, e) in d.index_axis_mut(ndarray::Axis(0), row).iter_mut().enumerate() {
+                            *e = if k % 2 == 0 { f64::INFINITY } else { f64::NEG_INFINITY };
+                        }
+                    }
                 }
             }
         }
@@ -239,6 +248,7 @@ fn cases_1d() -> Vec<Case1> {
             Strat::CubicNotAKnot,
             Strat::CubicPeriodic(PerEnds::Equal),
             Strat::CubicPeriodic(PerEnds::NanEnds),
+            Strat::CubicPeriodic(PerEnds::InfEnds),
             Strat::CubicIndividual(BShape::Ok),
             Strat::CubicIndividual(BShape::WrongLeading),
             Strat::CubicIndividual(BShape::WrongTrailing),
@@ -755,7 +765,7 @@ fn body(ctx: &Ctx) -> (Summary, Meta) {
         out
     }));
     let meta = Meta {
-        rule: "full factorial decision table. 1-D: data rank {dynamic 0, static and dynamic 1..3} x length 0..min+2 x axis {default, explicit of length n-1, n, n+1} x order pattern {increasing, tie / adjacent swap / NaN at each position, decreasing, +inf last, empty, single} x strategy {Linear, CubicSpline NotAKnot, Periodic with ends equal / unequal in each lane / NaN, Individual with boundary array shape ok / wrong leading / wrong trailing / wrong rank}; 2-D: x-factors x y-factors x rank {dynamic 0, 1, ok}, non-square. Oracle: valid iff no requirement violated; otherwise the returned BuilderError kind must belong to the kinds of the violated requirements; never a panic. Plus special cases: long axes (up to 257 / 1025 points) with a tie, a dip or NaN at every position for Interp1D and both axes of Interp2D; x and y as views into one table starting at the same element (column and row), the same view for both axes, the axis as a view of the data; the default index axis of 2^24+2 f32 values (not strictly increasing after the cast). Non-trivial = input with at least one violated requirement. Builder call orders: every sequence of 0..3 calls over {x(A), x(B), x(not increasing), strategy(Linear), strategy(Linear+extrapolate), strategy(CubicSpline)} (1-D) and {x, x(bad), y, y(bad), strategy(Bilinear), strategy(Bilinear+extrapolate)} (2-D) - 518 expressions - gives the verdict, error kind and answers of the canonical expression of the configuration it denotes (the last call of a kind wins).".into(),
+        rule: "full factorial decision table. 1-D: data rank {dynamic 0, static and dynamic 1..3} x length 0..min+2 x axis {default, explicit of length n-1, n, n+1} x order pattern {increasing, tie / adjacent swap / NaN at each position, decreasing, +inf last, empty, single} x strategy {Linear, CubicSpline NotAKnot, Periodic with ends equal / equal and infinite / unequal in each lane / NaN, Individual with boundary array shape ok / wrong leading / wrong trailing / wrong rank}; 2-D: x-factors x y-factors x rank {dynamic 0, 1, ok}, non-square. Oracle: valid iff no requirement violated; otherwise the returned BuilderError kind must belong to the kinds of the violated requirements; never a panic. Plus special cases: long axes (up to 257 / 1025 points) with a tie, a dip or NaN at every position for Interp1D and both axes of Interp2D; x and y as views into one table starting at the same element (column and row), the same view for both axes, the axis as a view of the data; the default index axis of 2^24+2 f32 values (not strictly increasing after the cast). Non-trivial = input with at least one violated requirement. Builder call orders: every sequence of 0..3 calls over {x(A), x(B), x(not increasing), strategy(Linear), strategy(Linear+extrapolate), strategy(CubicSpline)} (1-D) and {x, x(bad), y, y(bad), strategy(Bilinear), strategy(Bilinear+extrapolate)} (2-D) - 518 expressions - gives the verdict, error kind and answers of the canonical expression of the configuration it denotes (the last call of a kind wins).".into(),
         bounds: format!("{n1} 1-D cases + {n2} 2-D cases (every combination of simultaneous violations); tier {}", ctx.tier.name()),
         assumptions: vec!["an axis with fewer than 2 points counts as not strictly increasing (consistent with C12)".into()],
         extra: vec![],
